@@ -1647,6 +1647,14 @@ class HTTP11ClientProtocol(Protocol):
 
     _finishResponse_TRANSMITTING = _finishResponse_WAITING
 
+    def _finishResponse_ABORTING(self, rest: bytes) -> None:
+        """
+        The response ended while the connection is being aborted (for
+        example, a body delimited by the end of the connection).  Nothing to
+        do here: L{_connectionLost_ABORTING} disconnects the parser and
+        finishes the job.
+        """
+
     def _disconnectParser(self, reason):
         """
         If there is still a parser, call its C{connectionLost} method with the
